@@ -144,10 +144,43 @@ func c02pExec(t *verifh.T, c verifh.Case) {
 				continue
 			}
 			pl := g.GetPieceLength(int64(len(data)))
-			rec := []string{"generate", "tbl=" + tblTok, "d=" + verifh.Str(d.Hex()), "data=" + dataS, "crcs=" + c02pCRCs(data, pl)}
+			preTok, _ := c02pKv(op, "pre")
+			if preTok == "" {
+				preTok = "none"
+			}
+			rec := []string{"generate", "tbl=" + tblTok, "pre=" + preTok, "d=" + verifh.Str(d.Hex()), "data=" + dataS, "crcs=" + c02pCRCs(data, pl)}
 			if err := cas.CreateCacheFile(d.Hex(), bytes.NewReader(data)); err != nil {
 				cleanup()
 				t.One(rec, "err", "setup")
+				continue
+			}
+			// a metainfo sidecar that is already there: generated earlier under another table (pre=gen:<k.v+k.v>), or
+			// written directly with another piece length (pre=set:<pl>)
+			preOK := true
+			switch {
+			case strings.HasPrefix(preTok, "gen:"):
+				m1, ok := c02pTable(strings.NewReplacer(".", ":", "+", ",").Replace(preTok[4:]))
+				g1, err := metainfogen.New(metainfogen.Config{PieceLengths: m1}, cas)
+				if !ok || err != nil || g1.Generate(d) != nil {
+					preOK = false
+				}
+			case strings.HasPrefix(preTok, "set:"):
+				p1, err := strconv.ParseInt(preTok[4:], 10, 64)
+				if err != nil || p1 <= 0 {
+					preOK = false
+					break
+				}
+				mi1, err := core.NewMetaInfoFromBytes(d, data, p1)
+				if err != nil {
+					preOK = false
+					break
+				}
+				if _, err := cas.SetCacheFileMetadata(d.Hex(), metadata.NewTorrentMeta(mi1)); err != nil {
+					preOK = false
+				}
+			}
+			if !preOK {
+				cleanup()
 				continue
 			}
 			var gerr error
@@ -295,5 +328,29 @@ func TestVerif_C02_Table(t *testing.T) {
 		data := r.Bytes(size)
 		c02pExec(tr, verifh.Case{Ops: [][]string{{"one", "generate", "tbl=" + c02pTableTok(m), "data=" + verifh.Hex(data)}}})
 		tr.Count("generate", 1)
+	}
+	// (d) Generate on a store that already holds metainfo for the blob: generated under ANOTHER table, or written with
+	// another piece length; the result must follow the current table
+	for i := 0; i < verifh.Scale(60, 3000); i++ {
+		size := 1 + r.Intn(80)
+		data := r.Bytes(size)
+		pl2 := 1 + uint64(r.Intn(30))
+		pl1 := 1 + uint64(r.Intn(30))
+		if r.Chance(3, 4) && pl1 == pl2 {
+			pl1 = pl2 + 1 + uint64(r.Intn(5))
+		}
+		m2 := map[uint64]uint64{0: pl2}
+		if r.Chance(1, 2) {
+			m2 = map[uint64]uint64{0: 1 + uint64(r.Intn(9)), uint64(size): pl2, uint64(size + 1 + r.Intn(5)): 3}
+		}
+		pre := fmt.Sprintf("set:%d", pl1)
+		if r.Chance(1, 2) {
+			pre = "gen:" + strings.NewReplacer(":", ".", ",", "+").Replace(c02pTableTok(map[uint64]uint64{0: pl1, uint64(size) + 7: pl2}))
+		}
+		c02pExec(tr, verifh.Case{Ops: [][]string{{"one", "generate", "tbl=" + c02pTableTok(m2), "pre=" + pre, "data=" + verifh.Hex(data)}}})
+		tr.Count("generate_over_existing", 1)
+		if i < 2 {
+			tr.Sample("generate over existing metainfo: pre=" + pre + " tbl=" + c02pTableTok(m2))
+		}
 	}
 }
